@@ -187,7 +187,7 @@ FamRelaxed(z) == {C4("relaxed", t, Var("v"), VD(t, FALSE, Null), [v |-> v], TRUE
 (* C05: value pools *)
 
 OutStrs == {Str("abc"), Str("42"), Str("1.5"), Str("4294967297"), Str("true"), Str("RED"), Str("BLUE"), Str(T1), Str("")}
-           \cup {Str(s) : s \in LenientTimes}
+           \cup {Str(s) : s \in LenientTimes \cup EdgeTimes}
 Others == {[k |-> "other", s |-> "map"], [k |-> "other", s |-> "struct"], [k |-> "other", s |-> "chan"]}
 \* values of NAMED Go types (type Age int8, type Word string ...) whose underlying basic type a scalar knows
 Nameds == {Named_(u) : u \in {Num("i1", "int8"), Num("i1", "int16"), Num("i1", "int32"), Num("i2p31m1", "int32"), Num("i1", "int64"), Num("i2p32p1", "int64"),
